@@ -501,6 +501,11 @@ pub fn ring_polybase_ops(s: &mut Src) -> R {
     ob!(same(&c, &ddif), "PolyBase::sub_assign::coefficientwise-difference");
     let mut c = a.clone(); c *= &b;
     ob!(same(&c, &dmul), "PolyBase::mul_assign::ring-product-in-every-branch");
+    // units: a x^i with a a unit; is_unit <=> inv.is_some(), and a * inv == 1
+    use yui::Ring;
+    ob!(a.is_unit() == a.inv().is_some(), "PolyBase::is_unit-iff-inv-is-some");
+    ob!(a.is_unit() == (da.iter().filter(|c| **c != 0).count() == 1 && da.iter().any(|c| c.abs() == 1)), "PolyBase::is_unit-iff-unit-monomial(Laurent,Z)");
+    if let Some(w) = a.inv() { ob!(&a * &w == P::from_iter([(P::mono(0), 1)]), "PolyBase::a*inv==1"); }
     let k = s.small(-2, 2);
     let mut c = a.clone(); c *= &k;
     let mut dk = [0i64; D]; for i in 0..D { dk[i] = da[i] * k; }
